@@ -127,11 +127,11 @@ var allFlags = []string{"vesting", "extrafee", "nest", "overflow", "longdur", "h
 // flagRates: probability (percent) that a feature flag is on in a run, per property. Flags tied to
 // a known finding stay rare everywhere except in the property that owns the finding.
 func flagRate(prop, flag string) int {
-	base := map[string]int{"vesting": 15, "extrafee": 15, "nest": 30, "overflow": 10, "longdur": 8, "huge": 10, "denomchange": 4, "minaccepts63": 3, "addr255": 8, "idwrap": 4, "bigfee": 5, "stakebond": 15, "dupsigners": 5, "granter": 20}[flag]
+	base := map[string]int{"vesting": 15, "extrafee": 15, "nest": 30, "overflow": 10, "longdur": 8, "huge": 10, "denomchange": 4, "minaccepts63": 3, "addr255": 8, "idwrap": 0, "bigfee": 5, "stakebond": 15, "dupsigners": 5, "granter": 20}[flag]
 	boost := map[string][]string{
 		"C05": {"vesting", "granter", "extrafee"}, "C04": {"granter", "vesting"}, "C06": {"extrafee", "nest", "bigfee", "overflow"}, "C08": {"overflow", "nest"},
 		"C11": {"longdur", "huge"}, "C12": {"huge", "longdur"}, "C14": {"denomchange", "huge", "vesting"}, "C16": {"minaccepts63", "denomchange", "dupsigners"},
-		"C18": {"addr255", "idwrap"}, "C20": {"addr255"}, "C09": {"idwrap"}, "C02": {"stakebond", "nest"}, "C13": {"nest"}, "C15": {"overflow", "addr255"},
+		"C18": {"addr255"}, "C20": {"addr255"}, "C02": {"stakebond", "nest"}, "C13": {"nest"}, "C15": {"overflow", "addr255"},
 	}
 	for _, f := range boost[prop] {
 		if f == flag {
